@@ -184,6 +184,27 @@ def run(ctx: core.Ctx):
         other = bytes(rng.choice(MU.SAFE_NONCE_CHARS) for _ in range(20))
         for label, resp in responses_for(rng, pw, old, nonce, other, ctx.quick):
             cases.append((auth, oldauth, nonce, resp, label, pw))
+    # responses whose last / first byte is zero, cut there (a client that treats the response as a C string sends these):
+    # search nonces until the exact scramble ends (begins) with 0x00
+    for pw in ("pw", "päss wörd"):
+        auth = NativePasswordAuthPlugin.create_auth_string(pw)
+        found = {"tail": None, "head": None}
+        k = 0
+        while (found["tail"] is None or found["head"] is None) and k < 20000:
+            k += 1
+            nonce = bytes(MU.SAFE_NONCE_CHARS[b % len(MU.SAFE_NONCE_CHARS)] for b in hashlib.sha256(b"n%d" % k).digest()[:20])
+            ex = cl.native_scramble(pw.encode(), nonce)
+            if ex[-1] == 0 and found["tail"] is None:
+                found["tail"] = (nonce, ex)
+            if ex[0] == 0 and found["head"] is None:
+                found["head"] = (nonce, ex)
+        for where, v in found.items():
+            if v is None:
+                continue
+            nonce, ex = v
+            cases.append((auth, None, nonce, ex, "exact", pw))
+            cases.append((auth, None, nonce, ex[:-1] if where == "tail" else ex[1:], "truncated-zero-" + where, pw))
+            cases.append((auth, None, nonce, ex.rstrip(b"\0") if where == "tail" else ex.lstrip(b"\0"), "truncated-zero-" + where, pw))
     terms = [f"password_matches sha1 (mk_user {coq_opt_text(a)} {coq_opt_text(o)}) {core.coq_N_list(r)} {core.coq_N_list(n)}"
              for a, o, n, r, _, _ in cases]
     model = core.run_coq_terms(ctx, "c02m", HEADER, terms, shard=60)
